@@ -367,3 +367,12 @@ def match_refusal(coll, algo, np, layout, case, text):
         if re.fullmatch(rc, coll) and re.fullmatch(ra, algo) and re.search(rm, text) and pred(np, layout, case):
             return scope, rm
     return None
+
+
+def expected_refusal(coll, algo, np, layout, case):
+    """Index of the case-scope row of REFUSALS whose stated precondition is unmet for this case (the algorithm is then
+    expected to stop with that row's message), or None."""
+    for i, (rc, ra, rm, pred, scope) in enumerate(REFUSALS):
+        if scope == "case" and re.fullmatch(rc, coll) and re.fullmatch(ra, algo) and pred(np, layout, case):
+            return i
+    return None
